@@ -14,16 +14,20 @@ import DdoModel.Examples.SopDp
   `(Virtual ∅, all 256 jobs, None, 0)`; a merged state always has a pool of previous jobs; it is at least as deep as every
   merged state;
 * `chk_eq_some`, `cost?_le_imax` (**proved**): `isize` range of the checked operations;
-* `mergeOkWith_mono` (**proved**): `MergeOk` at a point is monotone in the value-to-go of the merged state — what makes the
-  classification of a violation (strict `can_schedule` fails, weakened one holds) meaningful: whenever the value-to-go
-  under the weakened rule dominates the strict one, a violation under the weakened rule is one under the strict rule;
-* `d12_refutes_MergeOkStmt`, `d12_lax_ok`, `d12_values`, `d12_merge`, `d12_inDomain` (**proved**, kernel evaluation on the
-  recorded D12 witness): `MergeOkStmt` is false on an instance of the domain, the weakened rule repairs that point;
+* `mergeOkWith_mono` (**proved**): `MergeOk` at a point is monotone in the value-to-go of the merged state;
+* `canSchedule?_exact`, `trans?_exact` (**proved**): on a state without a `maybe_schedule` set (every exact state) the repaired
+  `can_schedule` and `transition` ARE the ones shipped before (`canScheduleOld?`, `transOld?`): the repair of D12 only changes
+  what merged states and their descendants do;
+* `d12_refutes_MergeOkStmt`, `d12_lax_ok`, `d12_repaired`, `d12_values`, `d12_merge`, `d12_inDomain` (**proved**, kernel
+  evaluation on the recorded D12 witness): with the rule shipped before (`canScheduleOld`) `MergeOkOldStmt` is false on an
+  instance of the domain; the weakened rule, and the repaired code, are sound at that point;
   `rub_refutes_RubAdmissibleStmt`, `rub_values`, `rub_inDomain` (**proved**, kernel evaluation): `RubAdmissibleStmt` is false on
   an instance of the domain without inner precedences;
 * `rubFinalFixed_eq_of_ge`, `rubFinalFixed_eq_of_nil`, `rubFixed?_eq_of_must_ge`, `rub_fixed_values` (**proved**): the corrected
-  bound `rubFixed?` is the code's bound wherever no optional edge is mixed with mandatory ones (in particular on exact
+  bound `rubFixed?` is the first shipped bound wherever no optional edge is mixed with mandatory ones (in particular on exact
   states), and repairs the recorded point; `RubFixedAdmissibleStmt` (stated): it is admissible on every valid state;
+  `satAdd_eq_of_addC`, `rubFinalSat_eq_of_some`, `rub?_eq_of_rubFixed?` (**proved**): the bound of the repaired code (`rub?`,
+  saturating addition of the distance from the position) is `rubFixed?` wherever that one does not overflow;
 * stated, not proved (`def … : Prop`), evaluated pointwise by the driver on every generated instance of the domain:
   - `RubAdmissibleExactStmt`: on exact states (a previous job, no optional job) the rough bound dominates the value-to-go
     — holds on every generated point;
@@ -32,9 +36,10 @@ import DdoModel.Examples.SopDp
     positions left the code compares the largest mandatory edge with the FIRST optional one and sums `0 + 2` where
     `1 + 0` is the sound choice);
   - `RubDominatesRelaxedDpStmt`: the stronger reading (the relaxed DP's own value-to-go) — REFUTED pointwise, harmless;
-  - `MergeOkStmt`: `c + H(u) ≤ relax(c) + H(merge X)` for every `u ∈ X` — REFUTED pointwise (open defect D12, note
-    `sop-merge-can-schedule`); `MergeOkLaxStmt`: the same with `can_schedule` weakened in the merged state — holds on every
-    generated point; `LaxDominatesStmt`: the weakened value-to-go dominates the strict one;
+  - `MergeOkStmt`: `c + H(u) ≤ relax(c) + H(merge X)` for every `u ∈ X`, in the DP of the REPAIRED code — holds on every
+    generated point (driver note `sop-merge` otherwise); `MergeOkOldStmt`: the same in the DP shipped before — REFUTED
+    (finding D12, `d12_refutes_MergeOkStmt`); `MergeOkLaxStmt`: the old DP with `can_schedule` merely weakened to the mandatory
+    jobs in the merged state;
   - `DpExactStmt`: value of a prefix + value-to-go = minus the least cost of the specification among the sequences that
     extend the prefix. -/
 namespace Ddo.Examples.SopModel
@@ -74,23 +79,47 @@ theorem relax_eq (a b m : St) (d : Dec) (c : Int) : (relaxation T).relax a b m d
 theorem rankCmp_eq (a b : St) : rankCmp a b = compare a.depth b.depth := rfl
 theorem maxWidth_eq (nbVars factor depth : Nat) : maxWidth nbVars factor depth = nbVars * (depth + 1) * factor := rfl
 
-theorem trans?_depth {s s2 : St} {d : Dec} (h : trans? s d = some s2) : s2.depth = s.depth + 1 := by
+theorem trans?_depth {s s2 : St} {d : Dec} (h : trans? T s d = some s2) : s2.depth = s.depth + 1 := by
   unfold trans? at h
   split at h
   · cases h
-  · simp at h; subst h; rfl
+  · split at h
+    · simp at h; subst h; rfl
+    · obtain ⟨p, _, hp⟩ := Option.bind_eq_some_iff.mp h
+      simp at hp; subst hp; rfl
 
-theorem trans?_prev {s s2 : St} {d : Dec} (h : trans? s d = some s2) : s2.prev = .job d.val.toNat := by
+theorem trans?_prev {s s2 : St} {d : Dec} (h : trans? T s d = some s2) : s2.prev = .job d.val.toNat := by
   unfold trans? at h
   split at h
   · cases h
-  · simp at h; subst h; rfl
+  · split at h
+    · simp at h; subst h; rfl
+    · obtain ⟨p, _, hp⟩ := Option.bind_eq_some_iff.mp h
+      simp at hp; subst hp; rfl
 
-theorem trans?_maybe_none {s s2 : St} {d : Dec} (h : trans? s d = some s2) (hs : s.maybe = none) : s2.maybe = none := by
+theorem trans?_maybe_none {s s2 : St} {d : Dec} (h : trans? T s d = some s2) (hs : s.maybe = none) : s2.maybe = none := by
   unfold trans? at h
   split at h
   · cases h
-  · simp at h; subst h; simp [hs]
+  · split at h
+    · simp at h; subst h; rfl
+    · rename_i y hy; rw [hs] at hy; cases hy
+
+/-- on a state without a `maybe_schedule` set (every exact state) the repaired transition is the one shipped before -/
+theorem trans?_exact {s : St} (d : Dec) (hs : s.maybe = none) : trans? T s d = transOld? s d := by
+  unfold trans? transOld?
+  split
+  · rfl
+  · simp [hs]
+
+/-- on a state without a `maybe_schedule` set (every exact state) the repaired `can_schedule` is the one shipped before -/
+theorem canSchedule?_exact {s : St} (j : Nat) (hs : s.maybe = none) : canSchedule? T s j = canScheduleOld? T s j := by
+  unfold canSchedule? canScheduleOld? pending
+  cases hp : T.pred[j]? with
+  | none => rfl
+  | some p =>
+    simp only [hs, Option.getD_none, Nat.or_zero, Option.bind_eq_bind, Option.bind_some]
+    by_cases h : (p &&& s.must) = 0 <;> simp [h]
 
 theorem nextVar_eq_some {k : Nat} (h : k < T.n - 1) : nextVar T k = some k := by
   simp [nextVar, nv, h]
@@ -98,7 +127,7 @@ theorem nextVar_eq_some {k : Nat} (h : k < T.n - 1) : nextVar T k = some k := by
 /-- on the last variable the domain is the last job, whatever the state holds -/
 theorem domain?_last {s : St} (hn : 2 ≤ T.n) (h : s.depth = T.n - 2) :
     domain? T s = some [((T.n - 1 : Nat) : Int)] := by
-  unfold domain?
+  unfold domain? domainWith?
   have : ¬ T.n ≤ 1 := by omega
   simp [this, h]
 
@@ -141,7 +170,11 @@ theorem chk_eq_some {x y : Int} (h : chk x = some y) : y = x ∧ imin ≤ y ∧ 
 theorem cost?_le_imax {s : St} {d : Dec} {c : Int} (h : cost? T s d = some c) : imin ≤ c ∧ c ≤ imax := by
   unfold cost? at h
   split at h
-  · cases h
+  · split at h
+    · split at h
+      · exact (chk_eq_some h).2
+      · cases h
+    · cases h
   · obtain ⟨w, _, hw⟩ := Option.bind_eq_some_iff.mp h
     exact (chk_eq_some hw).2
 
@@ -186,20 +219,25 @@ def RubAdmissibleStmt : Prop :=
 def RubDominatesRelaxedDpStmt : Prop :=
   ∀ (s : St) (r : Int), validB T s = true → rubOld? T s = some r → bestRem T s ≤ some r
 
-/-- `merge` + `relax` over-approximate every merged-away state (potential form).  REFUTED pointwise: open defect D12
-    (driver note `sop-merge-can-schedule`) -/
+/-- `merge` + `relax` over-approximate every merged-away state (potential form), in the DP of the REPAIRED code (`canSchedule?`,
+    `trans?`): holds on every generated point (a violation is the driver note `sop-merge`) -/
 def MergeOkStmt : Prop :=
   ∀ (X : List St) (u : St) (c : Int), u ∈ X → validB T u = true → (∀ s ∈ X, validB T s = true ∧ s.depth = u.depth) →
     mergeOkAt T u (merge X) c (relaxCost c) = true
 
-/-- the same with `can_schedule` weakened, in the merged state, to "no predecessor MUST still be scheduled" (holds on every
-    generated point) -/
+/-- the same in the DP shipped before the repair (`canScheduleOld?`, `transOld?`).  REFUTED: finding D12,
+    `d12_refutes_MergeOkStmt` -/
+def MergeOkOldStmt : Prop :=
+  ∀ (X : List St) (u : St) (c : Int), u ∈ X → validB T u = true → (∀ s ∈ X, validB T s = true ∧ s.depth = u.depth) →
+    mergeOkOldAt T u (merge X) c (relaxCost c) = true
+
+/-- the old DP with `can_schedule` weakened, in the merged state, to "no predecessor MUST still be scheduled" -/
 def MergeOkLaxStmt : Prop :=
   ∀ (X : List St) (u : St) (c : Int), u ∈ X → validB T u = true → (∀ s ∈ X, validB T s = true ∧ s.depth = u.depth) →
     mergeOkLaxAt T u (merge X) c (relaxCost c) = true
 
-/-- the weakened rule only adds completions -/
-def LaxDominatesStmt : Prop := ∀ (s : St), bestRem T s ≤ bestRemLax T s
+/-- the weakened rule only adds completions to the old DP -/
+def LaxDominatesStmt : Prop := ∀ (s : St), bestRemOld T s ≤ bestRemLax T s
 
 /-- the DP model is exact: value of a prefix + value-to-go = minus the least cost, by the specification, among the sequences
     that extend the prefix (`none` = −∞ = no such sequence) -/
@@ -226,19 +264,28 @@ def d12X : List St :=
 
 theorem d12_inDomain : inDomain 6 d12Rows = true := by decide +kernel
 theorem d12_merge : merge d12X = ⟨.virt (ofList [1, 2, 3, 4]), ofList [5], some (ofList [1, 2, 3, 4]), 2⟩ := by decide +kernel
-theorem d12_values : bestRem d12T d12u = some (-2) ∧ bestRem d12T (merge d12X) = some (-3) ∧
-    bestRemLax d12T (merge d12X) = some (-1) := by decide +kernel
+/-- the rule shipped before the repair blocks job 2 on the merged state (job 3, its predecessor, is "maybe to do"); the
+    repaired rule allows it (job 3 is done in `d12u`) -/
+theorem d12_can_schedule : canScheduleOld d12T (merge d12X) 2 = false ∧ canSchedule? d12T (merge d12X) 2 = some true ∧
+    canScheduleOld d12T d12u 2 = true := by decide +kernel
+theorem d12_values : bestRemOld d12T d12u = some (-2) ∧ bestRemOld d12T (merge d12X) = some (-3) ∧
+    bestRemLax d12T (merge d12X) = some (-1) ∧ bestRem d12T d12u = some (-2) ∧ bestRem d12T (merge d12X) = some (-2) := by
+  decide +kernel
 
-/-- D12 in the model: `merge` + `relax` do NOT over-approximate the merged-away state `d12u` (value-to-go `-2`: `4 → 2 → 1 → 5`;
-    the merged state only reaches `-3`, job 3 being "maybe to do" blocks job 2) … -/
-theorem d12_refutes_MergeOkStmt : ¬ MergeOkStmt d12T := by
+/-- D12 in the model, about the rule shipped BEFORE the repair (`canScheduleOld`): `merge` + `relax` do NOT over-approximate
+    the merged-away state `d12u` (value-to-go `-2`: `4 → 2 → 1 → 5`; the merged state only reaches `-3`, job 3 being "maybe to
+    do" blocks job 2) … -/
+theorem d12_refutes_MergeOkStmt : ¬ MergeOkOldStmt d12T := by
   intro h
   have h1 := h d12X d12u (-3) (by decide +kernel) (by decide +kernel) (by decide +kernel)
   revert h1
   decide +kernel
 
-/-- … and does with `can_schedule` weakened to the mandatory jobs -/
+/-- … and do with `can_schedule` weakened to the mandatory jobs … -/
 theorem d12_lax_ok : mergeOkLaxAt d12T d12u (merge d12X) (-3) (relaxCost (-3)) = true := by decide +kernel
+
+/-- … and in the DP of the repaired code -/
+theorem d12_repaired : mergeOkAt d12T d12u (merge d12X) (-3) (relaxCost (-3)) = true := by decide +kernel
 
 /-- an instance of the domain (7 jobs, no precedence among the inner jobs) met by the driver (note `sop-rub`) -/
 def rubRows : List (List Int) :=
@@ -286,6 +333,40 @@ theorem rubFixed?_eq_of_must_ge (s : St) (hv : card s.must ≥ nv T - s.depth) (
     of the code's `-4` is of the class `sop-rub-optional-edge` -/
 theorem rub_fixed_values : rubFixed? rubT rubS = some (-3) ∧ rubOkAt rubT rubS (-3) = true ∧
     rubOptionalEdgeAt rubT rubS (-4) = true := by decide +kernel
+
+-- the bound of the repaired code (`rub?`): `rubFixed?` with a saturating addition of the distance from the position
+
+theorem satAdd_eq_of_addC {a b x : Int} (h : addC a b = some x) : satAdd a b = x := by
+  obtain ⟨rfl, h1, h2⟩ := chk_eq_some h
+  unfold satAdd
+  omega
+
+theorem rubFinalSat_eq_of_some {ct nMust : Nat} {dist : Int} {toMust toMaybe : List Int} {r : Int}
+    (h : rubFinalFixed ct nMust dist toMust toMaybe = some r) : rubFinalSat ct nMust dist toMust toMaybe = some r := by
+  unfold rubFinalFixed at h
+  unfold rubFinalSat
+  split at h
+  · split at h
+    · cases h
+    · obtain ⟨a, ha, hr⟩ := Option.bind_eq_some_iff.mp h
+      simp [*, satAdd_eq_of_addC ha]
+  · split at h
+    · obtain ⟨a, ha, hr⟩ := Option.bind_eq_some_iff.mp h
+      simp [*, satAdd_eq_of_addC ha]
+    · obtain ⟨a, ha, hr⟩ := Option.bind_eq_some_iff.mp h
+      simp [*, satAdd_eq_of_addC ha]
+
+theorem rubWith?_mono {f g : Nat → Nat → Int → List Int → List Int → Option Int}
+    (hfg : ∀ ct nm d a b r, f ct nm d a b = some r → g ct nm d a b = some r) {s : St} {r : Int}
+    (h : rubWith? T f s = some r) : rubWith? T g s = some r := by
+  unfold rubWith? at h ⊢
+  simp only [Option.bind_eq_bind, Option.bind_eq_some_iff] at h ⊢
+  obtain ⟨nbv, h1, ct, h2, rm, h3, dist, h4, rmy, h5, d2, h6, h7⟩ := h
+  exact ⟨nbv, h1, ct, h2, rm, h3, dist, h4, rmy, h5, d2, h6, hfg _ _ _ _ _ _ h7⟩
+
+/-- the bound of the repaired code is the bound corrected for D19 wherever that one does not overflow -/
+theorem rub?_eq_of_rubFixed? {s : St} {r : Int} (h : rubFixed? T s = some r) : rub? T s = some r :=
+  rubWith?_mono T (fun _ _ _ _ _ _ h => rubFinalSat_eq_of_some h) h
 
 /-- the corrected bound is admissible on every valid state (argument in the comment of `rubFinalFixed`; holds on every
     generated point where the code's bound fails) -/
